@@ -376,7 +376,16 @@ func (y *LeafList) setParent(p Meta) {
 	y.parent = p
 }
 
-var anyType = newType("any")
+var anyType = newAnyType()
+
+// the one type of every anydata and anyxml of every module. compiled here, compiling it
+// while loading would be a write to data shared by modules loading at the same time
+func newAnyType() *Type {
+	t := newType("any")
+	t.format, _ = val.TypeAsFormat(t.ident)
+	t.delegate = t
+	return t
+}
 
 type Any struct {
 	ident          string
